@@ -322,12 +322,21 @@ def witness_search(prop, repo, rundir, seed, timeout=600, quick=False):
         shutil.rmtree(os.path.join(crate, "src"))
     shutil.copytree(os.path.join(HERE, "replay", "src"), os.path.join(crate, "src"))
     shutil.copy(os.path.join(repo, "Cargo.lock"), os.path.join(crate, "Cargo.lock"))
-    env = dict(os.environ, CARGO_NET_OFFLINE="true", CARGO_TARGET_DIR=os.path.join(WORK, "replay-target"))
+    base = os.path.join(WORK, "replay-target")
+    if os.path.realpath(repo) == "/repo":
+        target = base
+    else:
+        # scratch trees get a private target directory seeded with hard links to the cached dependency
+        # artifacts: no race on the output binary between concurrent runs, removed with the run directory
+        target = os.path.join(rundir, "replay-target")
+        if os.path.isdir(base) and not os.path.isdir(target):
+            subprocess.run(["cp", "-al", base, target], capture_output=True)
+    env = dict(os.environ, CARGO_NET_OFFLINE="true", CARGO_TARGET_DIR=target)
     b = subprocess.run(["cargo", "build", "--release", "--offline", "-q"], cwd=crate, env=env, capture_output=True, text=True)
     if b.returncode != 0:
         return {"cases": 0, "failures": [], "error": "replay tool does not build against this tree: " + b.stderr[-400:]}
     try:
-        r = subprocess.run([os.path.join(WORK, "replay-target", "release", "replay"), "witness", prop, str(seed)] + (["quick"] if quick else []), capture_output=True, text=True, timeout=timeout)
+        r = subprocess.run([os.path.join(target, "release", "replay"), "witness", prop, str(seed)] + (["quick"] if quick else []), capture_output=True, text=True, timeout=timeout)
     except subprocess.TimeoutExpired:
         return {"cases": 0, "failures": [], "error": "witness search timed out"}
     res = {"cases": 0, "failures": [], "error": None}
